@@ -49,7 +49,17 @@ def normalise(rows, F=None):
         texts = []
         for a in r["assume"]:
             tag = a[0]
-            if isinstance(tag, str) and tag.startswith("contains("):
+            if isinstance(tag, tuple) and tag and tag[0] == "contains":
+                _, expr, pd = tag
+                if "arg" not in repr(expr):
+                    continue
+                val = bool(a[1][1])
+                if pd[0] == "str":
+                    conds.append(lambda s, _p=pd[1], _v=val, _e=expr: (_p in codec.apply_expr(_e, s)) == _v)
+                else:
+                    conds.append(lambda s, _p=pd[1], _v=val, _e=expr: any(c in codec.apply_expr(_e, s) for c in _p) == _v)
+                texts.append("%s %s %r" % (codec.expr_str(expr), "contains" if val else "lacks", pd[1] if pd[0] == "str" else list(pd[1])))
+            elif isinstance(tag, str) and tag.startswith("contains("):
                 ev = [x for x in r["events"] if x[0] == "test-contains"]
                 pat = ev[0][2][1] if ev and ev[0][2] and ev[0][2][0] == "lit" else None
                 if pat is None:
@@ -135,3 +145,58 @@ def report_roundtrip(rep, rule, label, tab, rows, where, fn_path, record_sep=Non
         rep.ob(rule, "%s: argument %r" % (label, s), "undecided", "simulation undecided: %r" % (res,), where, fn=fn_path)
     rep.extra.setdefault("roundtrip_strings_checked", {})[label] = checked
     return reported
+
+
+# ---- output files start empty --------------------------------------------------------------------------------------
+OPEN_OPTS = "std::fs::OpenOptions::"
+
+
+def open_chains(fn):
+    """Every OpenOptions::open in `fn` with the option calls applied to the same builder: [(open call, {option: literal or None})]."""
+    out = []
+    for c in fn.calls_to("std::fs::OpenOptions::open"):
+        opts = {}
+        cur = op_local(c.args[0])
+        seen = set()
+        while cur is not None and cur not in seen:
+            seen.add(cur)
+            nxt = None
+            for d in rules.defs_of(fn, cur):
+                if d[0] == "call":
+                    cc = d[4]
+                    nm = cc.callee()
+                    if nm.startswith(OPEN_OPTS) and cc.args:
+                        k = op_const(cc.args[1]) if len(cc.args) > 1 else None
+                        opts[nm[len(OPEN_OPTS):]] = (k.get("int") if k else None)
+                        nxt = op_local(cc.args[0])
+                    elif cc.matches(("std::fs::File::options", "std::fs::OpenOptions::new")):
+                        opts["<new>"] = "1"
+                else:
+                    rv = d[4]
+                    pl = rv.get("ref") or (mir.op_place(rv["use"]) if "use" in rv else None)
+                    if pl is not None:
+                        nxt = pl["l"]
+            cur = nxt
+        out.append((c, opts))
+    return out
+
+
+def fresh_output_files(F, rep, rule, crates, floor):
+    """A file opened for writing starts empty: the builder chain of every OpenOptions::open with write(true) also has truncate(true) or
+    create_new(true) and no append(true).  (A shorter output written over a longer old file leaves the old tail, which the loader then reads.)"""
+    n = 0
+    for ck in crates:
+        for f in F.crates[ck].fns:
+            for c, opts in open_chains(f):
+                if opts.get("write") != "1" and opts.get("append") != "1":
+                    continue
+                n += 1
+                ok = "<new>" in opts and opts.get("append") in (None, "0") and (opts.get("truncate") == "1" or opts.get("create_new") == "1")
+                rep.ob(rule, "%s opens its output file empty (truncate or create_new, no append)" % mir.short(f.path), "ok" if ok else "violated",
+                       "options: %s" % {k: v for k, v in sorted(opts.items())}, c.span, fn=f.path, key="%s|%s" % (rule, mir.short(f.path)))
+            for c in f.calls():
+                if c.matches(("std::fs::File::create", "std::fs::write", "std::fs::File::create_new")):
+                    n += 1
+                    rep.ob(rule, "%s opens its output file empty (%s)" % (mir.short(f.path), mir.short(c.callee())), "ok", "", c.span, fn=f.path,
+                           key="%s|%s" % (rule, mir.short(f.path)))
+    rep.floor(rule + " files opened for writing", n, floor)
